@@ -3,6 +3,7 @@ package props
 import (
 	"encoding/json"
 	"fmt"
+	"google.golang.org/protobuf/proto"
 	"os"
 	"testing"
 	"time"
@@ -197,6 +198,21 @@ func c15CheckOn(c c15Case, live *sbom.NodeList, before string) error {
 
 func c15Timed(t fataler, c c15Case) {
 	var err error
+	// on an ill-formed list (an edge endpoint or root that is no node) the statement promises termination only: the
+	// calls are made under the watchdog, what they return is not compared (dangling endpoints may be skipped, kept or
+	// given placeholder nodes)
+	if hx.WellFormed(&sbom.NodeList{Nodes: c.NL.GetNodes(), Edges: c.NL.GetEdges()}, false) != nil {
+		withWatchdog(t, 5*time.Second, "sub-graph extraction on "+c.String(), func() {
+			live := proto.Clone(c.NL).(*sbom.NodeList)
+			_ = live.NodeGraph(c.Start)
+			_ = live.NodeSiblings(c.Start)
+			for d := 1; d <= c.Depth; d++ {
+				_ = live.NodeDescendants(c.Start, d)
+			}
+		})
+		hx.Class("ill_formed:termination_only")
+		return
+	}
 	withWatchdog(t, 5*time.Second, "sub-graph extraction on "+c.String(), func() { err = c15Check(c) })
 	if err != nil {
 		t.Fatalf("%v\n  case: %s", err, c)
@@ -264,7 +280,7 @@ func c15Property(t *rapid.T) {
 	c15Timed(t, c)
 
 	// independence of node and edge order (and of how targets are grouped into edges), for start nodes of the graph
-	if nodeByID(nl, start) == nil {
+	if nodeByID(nl, start) == nil || hx.WellFormed(&sbom.NodeList{Nodes: nl.Nodes, Edges: nl.Edges}, false) != nil {
 		return
 	}
 	p := &sbom.NodeList{Nodes: hx.Permute(t, "pn", nl.Nodes), Edges: hx.Permute(t, "pe", nl.Edges), RootElements: hx.Permute(t, "pr", nl.RootElements)}
